@@ -156,3 +156,12 @@ Theorem C01_source_access_indices :
      gen_mmbase_masked_inline_accesses W M K N i j k n = model_mmbase_masked_inline K N i j k n).
 Proof. intros. exact (conj (gen_mmkernel_accesses_eq W M K N Ru i j ii k n) (gen_mmbase_inline_accesses_eq W M K N i j k n)). Qed.
 Print Assumptions C01_source_access_indices.
+
+(** the eleven overloads of _matmul_mk_smalln (matmul_mk_smalln.h), as translated: exactly one is enabled for every N,
+    and (for N <= 5W) it unrolls [smalln_unroll (ceil (N/W))] rows with M0 = M/u*u - the row tiling of the model *)
+Theorem C01_source_smalln_overloads :
+  forall W M N, 0 < W -> 0 < N ->
+    length (filter fst (gen_smalln_overloads W M N)) = 1 /\
+    Forall (fun e => fst e = true -> N <= 5 * W -> snd e = (let u := smalln_unroll ((N + W - 1) / W) in (u, M / u * u)))
+           (gen_smalln_overloads W M N).
+Proof. exact gen_smalln_overloads_eq. Qed.
